@@ -23,6 +23,10 @@ import (
 	"testing"
 
 	"github.com/gagliardetto/solana-go"
+	"github.com/rpcpool/yellowstone-faithful/gsfa/linkedlog"
+	"github.com/rpcpool/yellowstone-faithful/indexes"
+	"github.com/rpcpool/yellowstone-faithful/ipld/ipldbindcode"
+	"github.com/rpcpool/yellowstone-faithful/iplddecoders"
 	old_faithful_grpc "github.com/rpcpool/yellowstone-faithful/old-faithful-proto/old-faithful-grpc"
 	zz "github.com/rpcpool/yellowstone-faithful/zzverif"
 )
@@ -123,6 +127,10 @@ type c19World struct {
 	// would kill the whole process)
 	absentPanics   bool
 	slotFieldWrong int
+	// does GetBeforeUntilSlot leave out entries at or above `before`?  (pinned tree: no — `before` only selects the
+	// epochs; a proposed fix of C07 makes it an exclusive upper bound.)  Measured on the real reader, written on the
+	// `world` op line for the model, and used by the oracle only to name the window finding.
+	honoursBefore bool
 }
 
 func (w *c19World) id(k solana.PublicKey) int {
@@ -420,6 +428,61 @@ func c19Hi(s string) *uint64 {
 	return &v
 }
 
+// probeBefore asks the real multi-epoch address-index reader for the entries of one account below a slot in the
+// middle of the second epoch and looks whether anything at or above that slot comes back.
+func (w *c19World) probeBefore() (bool, error) {
+	B := w.epochs[1]
+	before := B.Blocks[len(B.Blocks)/2].Slot
+	until := B.Blocks[0].Slot
+	ctx := context.Background()
+	rd, nums := w.withG.getGsfaReadersInEpochDescendingOrderForSlotRange(ctx, until, before)
+	if len(nums) == 0 {
+		return false, fmt.Errorf("no address-index reader for the second epoch")
+	}
+	fetch := func(epochNum uint64, oas linkedlog.OffsetAndSizeAndSlot) (*ipldbindcode.Transaction, error) {
+		ep, err := w.withG.GetEpoch(epochNum)
+		if err != nil {
+			return nil, err
+		}
+		raw, err := ep.GetNodeByOffsetAndSize(ctx, nil, &indexes.OffsetAndSize{Offset: oas.Offset, Size: oas.Size})
+		if err != nil {
+			return nil, err
+		}
+		return iplddecoders.DecodeTransaction(raw)
+	}
+	for a := 0; a < c19NUniverse; a++ {
+		above, below := 0, 0
+		for _, b := range B.Blocks {
+			for _, t := range b.Txs {
+				if w.mentions(t, a) {
+					if t.Slot >= before {
+						above++
+					} else {
+						below++
+					}
+				}
+			}
+		}
+		if above == 0 || below == 0 {
+			continue
+		}
+		res, err := rd.GetBeforeUntilSlot(ctx, w.accts[a], 1<<20, before, until, fetch)
+		if err != nil {
+			return false, err
+		}
+		gotAbove := 0
+		for _, txs := range res {
+			for _, t := range txs {
+				if uint64(t.Slot) >= before {
+					gotAbove++
+				}
+			}
+		}
+		return gotAbove == 0, nil
+	}
+	return false, fmt.Errorf("no account with entries on both sides of the probe slot")
+}
+
 // runTx executes one streamtx op on the real code
 func (w *c19World) runTx(lo uint64, hi *uint64, gsfaOn bool, direct bool, f c19Filter) (string, []c19Item) {
 	multi := w.without
@@ -539,6 +602,9 @@ func (w *c19World) newerEntries(a int, t *gTx, lo, end uint64) int {
 		}
 		for _, b := range ge.Blocks {
 			for _, u := range b.Txs {
+				if w.honoursBefore && u.Slot > end {
+					continue
+				}
 				if (u.Slot > t.Slot || (u.Slot == t.Slot && u.Pos > t.Pos)) && w.mentions(u, a) {
 					n++
 				}
@@ -911,7 +977,7 @@ func (r *c19Run) viol(v c19Verdict, line string) {
 func (r *c19Run) describe() {
 	w := r.w
 	op := func(l string) { r.s.Op(l, "ok", false) }
-	op(r.world.line())
+	op(r.world.line() + fmt.Sprintf(" before=%d", map[bool]int{false: 0, true: 1}[w.honoursBefore]))
 	for i, k := range w.accts {
 		op(fmt.Sprintf("acct %d %s", i, k))
 	}
@@ -1158,6 +1224,19 @@ func TestVerifC19(t *testing.T) {
 			s.Op(wo.line(), "build-failed", false)
 			s.Violation("generated epochs could not be indexed / loaded by the real code: "+err.Error(), "C19:fixture-failed", s.Replay([]string{wo.line()}))
 			continue
+		}
+		if hb, err := w.probeBefore(); err != nil {
+			s.Op(wo.line(), "probe-failed", false)
+			s.Violation("the address-index reader could not be probed: "+err.Error(), "C19:fixture-failed", s.Replay([]string{wo.line()}))
+			w.close()
+			continue
+		} else {
+			w.honoursBefore = hb
+			if hb {
+				s.Count("probe: GetBeforeUntilSlot honours `before`")
+			} else {
+				s.Count("probe: GetBeforeUntilSlot ignores `before` inside an epoch")
+			}
 		}
 		r := &c19Run{s: s, w: w, world: wo, results: map[string][]c19Item{}, outs: map[string]string{}, window: map[string]bool{}}
 		r.describe()
